@@ -72,13 +72,19 @@ def run(ctx):
         'R4 each converter pair of utils composes to the identity (exact '
         'rational affine maps); dispatchers return the member matching the '
         'branch; tables use the SI->user direction',
-        'R5 every numeric schema key is classified (schema drift)']
+        'R5 every numeric schema key is classified (schema drift)',
+        'R6 before convert_units runs, a raw (user-unit) length or '
+        'temperature never leaves the reader (argument of a call into '
+        'another module) and is never compared with a dimensional literal, '
+        'unless it passes through a unit converter first']
     ctx.not_decided += ['equality of meshes and temperatures across units']
     keys, sections = S.parse_template(ctx.repo.template_text)
     r5(ctx, keys)
     conv_paths = r1_r2(ctx, keys, sections)
     r3(ctx)
     r4(ctx)
+    r6(ctx, keys, sections)
+    ctx.min_instances('C17.R6', 10)
     ctx.min_instances('C17.R1', 24)
     ctx.min_instances('C17.R3', 5)
     ctx.min_instances('C17.R4', 20)
@@ -547,3 +553,133 @@ def r4(ctx):
     ctx.require(bool(h1 and h2), 'C17.R4', fi, fi.node,
                 'mass-flow output conversion: kg->user mass, time inverted',
                 key=fi.full + ' | direction')
+
+
+# ---------------------------------------------------------------------------
+# R6: raw dimensional values before conversion
+
+def _dimensional(path, keys, sections):
+    c = _canon(path, keys, sections)
+    if c is None:
+        if path and path[0] == 'Assignment' and path[-1] in (
+                'outlet_temp', 'delta_temp', 'flowrate'):
+            return 'assignment ' + path[-1]
+        return None
+    if c in LENGTH or c in FOLDED_LENGTH:
+        return 'length'
+    if c in TEMPERATURE:
+        return 'temperature'
+    return None
+
+
+def r6(ctx, keys, sections):
+    repo = ctx.repo
+    ci = repo.cls('read_input', 'DASSH_Input')
+    init = repo.func('read_input', 'DASSH_Input.__init__')
+    conv_line = None
+    for c in walk_no_nested(init.node):
+        if isinstance(c, ast.Call) and call_name(c) == 'self.convert_units':
+            conv_line = c.lineno
+    if conv_line is None:
+        raise AnalysisError('DASSH_Input.__init__: convert_units call')
+    before = []
+    for c in walk_no_nested(init.node):
+        if isinstance(c, ast.Call) and (call_name(c) or '').startswith(
+                'self.') and c.lineno < conv_line:
+            m = repo.lookup_method(ci, call_name(c)[5:])
+            if m is not None and m.cls is not None and \
+                    m.mod.name == 'dassh.read_input':
+                before.append(m)
+    # closure over self-calls
+    seen, work = {}, list(before)
+    while work:
+        m = work.pop()
+        if m.full in seen:
+            continue
+        seen[m.full] = m
+        for c in walk_no_nested(m.node):
+            if isinstance(c, ast.Call) and (call_name(c) or '').startswith(
+                    'self.') and call_name(c).count('.') == 1:
+                t = repo.lookup_method(ci, call_name(c)[5:])
+                if t is not None and t.mod.name == 'dassh.read_input':
+                    work.append(t)
+    roots = {'self.data'}
+    n = 0
+    for m in seen.values():
+        aliases = IP.local_aliases_with(m.node, roots, {})
+
+        def dim_of(e):
+            """kind of raw dimensional value an expression carries (through
+            single-definition locals), unless wrapped by a converter."""
+            e2 = U.expand_locals(m.node, e, before=getattr(e, 'lineno', None),
+                                 keep=('conv',))
+            for x in ast.walk(e2):
+                if isinstance(x, ast.Call):
+                    f = call_name(x) or ''
+                    if f in ('conv', 'float', 'len', 'str', 'isinstance',
+                             'sorted', 'min', 'max') or 'conversion' in f:
+                        if f in ('min', 'max', 'sorted', 'float'):
+                            continue
+                        return None if f.startswith('conv') or \
+                            'conversion' in f else None
+            for x in ast.walk(e2):
+                if isinstance(x, (ast.Subscript,)):
+                    par_ok = True
+                    ps = IP.resolve(m.node, x, roots, aliases,
+                                    line=getattr(e, 'lineno', 0))
+                    for p_ in ps or []:
+                        k = _dimensional(p_, keys, sections)
+                        if k:
+                            return k
+            return None
+        for c in walk_no_nested(m.node):
+            if isinstance(c, ast.Call):
+                f = call_name(c) or ''
+                if f.startswith('self.') or f in ('conv', 'float', 'len',
+                                                  'str', 'isinstance', 'min',
+                                                  'max', 'sorted', 'any',
+                                                  'all', 'range', 'print',
+                                                  'abs', 'int', 'list',
+                                                  'enumerate', 'zip') \
+                        or 'conversion' in f or f.startswith(('np.', 'os.',
+                                                              'utils.')) \
+                        or f.endswith(('.format', '.append', '.keys',
+                                       '.values', '.items', '.lower', '.get',
+                                       '.index', '.join', '.split')):
+                    continue
+                if not f or '.' not in f:
+                    continue    # builtins / helpers of the reader itself
+                for a in list(c.args) + [k_.value for k_ in c.keywords]:
+                    n += 1
+                    k = dim_of(a)
+                    ctx.require(
+                        k is None, 'C17.R6', m, c,
+                        'a raw %s in user units (%s) is handed to %s() before '
+                        'convert_units has run: what that call computes or '
+                        'stores depends on the unit system of the input'
+                        % (k, ' '.join(src(a).split())[:60], f),
+                        key='%s | raw %s -> %s' % (m.full, k, f))
+            if isinstance(c, ast.Compare):
+                sides = [c.left] + list(c.comparators)
+                lits = [const(x) for x in sides]
+                dims = [dim_of(x) for x in sides]
+                for i, d in enumerate(dims):
+                    if d is None:
+                        continue
+                    for j, lv in enumerate(lits):
+                        if j == i or not isinstance(lv, (int, float)) or \
+                                isinstance(lv, bool):
+                            continue
+                        n += 1
+                        bad = (d == 'length' and lv != 0) or \
+                              (d.startswith(('temperature', 'assignment '
+                                             'outlet', 'assignment delta'))
+                               and True and lv != 0 and False)
+                        ctx.require(
+                            not bad, 'C17.R6', m, c,
+                            'a raw %s in user units is compared with the '
+                            'dimensional literal %r before unit conversion'
+                            % (d, lv), key='%s | raw %s vs literal %s'
+                            % (m.full, d, lv))
+    ctx.extra['pre_conversion_methods'] = len(seen)
+    ctx.extra['pre_conversion_uses_examined'] = n
